@@ -232,10 +232,21 @@ func ValidateParameter(ctx context.Context, input *RequestValidationInput, param
 				if req.Header == nil {
 					req.Header = make(http.Header) // a request assembled by hand may have none
 				}
-				req.Header.Add(parameter.Name, defaultValueToString(value))
+				// (a header sent with an empty value reads as not supplied: the default takes its place)
+				req.Header.Set(parameter.Name, defaultValueToString(value))
 			case openapi3.ParameterInCookie:
 				if req.Header == nil {
 					req.Header = make(http.Header)
+				}
+				if _, err := req.Cookie(parameter.Name); err == nil {
+					// the cookie was sent with an empty value: the default takes its place
+					others := req.Cookies()
+					req.Header.Del("Cookie")
+					for _, other := range others {
+						if other.Name != parameter.Name {
+							req.AddCookie(other)
+						}
+					}
 				}
 				req.AddCookie(&http.Cookie{
 					Name:  parameter.Name,
